@@ -143,7 +143,8 @@ pub fn run(ctx: &mut Ctx) {
             if nontrivial(d) {
                 ctx.nontrivial();
             }
-            let f = Facts::from_dag(d, &POOL);
+            // even case numbers use the spread id pool, odd ones consecutive ids (adjacent values)
+            let f = if ctx.spaces.last().map(|s| s.1.cases % 2 == 0).unwrap_or(true) { Facts::from_dag(d, &POOL) } else { Facts::from_dag(d, &super::c01::POOL_ADJACENT) };
             let r = RefOnt::derive(&f);
             ctx.transitions(f.n_steps() + (n * n * 7) as u64);
             ctx.execs((n * n) as u64);
